@@ -240,13 +240,14 @@ class Pipeline:
 
     # ------------------------------------------------------------------ entry points
     def compile_exps(self, text: str, file_name: str = "/proj/main.exps", files: dict[str, str] | None = None, lookup_paths: list[str] | None = None,
-                     perf: str = "$PERF") -> AObj:
-        """ExplorerScriptSsbCompiler(perf, lookup_paths).compile(text, file_name); the compiler object (routine_ops, routine_infos, named_coroutines, source_map)."""
+                     perf: str = "$PERF", compiler: AObj | None = None) -> AObj:
+        """ExplorerScriptSsbCompiler(perf, lookup_paths).compile(text, file_name); the compiler object (routine_ops, routine_infos, named_coroutines, source_map).
+        With `compiler`, compile() is called on that (already used) object instead of a new one."""
         self.files = {posixpath.normpath(k): v for k, v in (files or {}).items()}
         self.files[posixpath.normpath(file_name)] = text
         I = self.I
         I.steps = 0
-        c = I.new(self.repo.find_class("ExplorerScriptSsbCompiler"), perf, list(lookup_paths or []))
+        c = compiler if compiler is not None else I.new(self.repo.find_class("ExplorerScriptSsbCompiler"), perf, list(lookup_paths or []))
         m = self.repo.find_method(c.cls, "compile")
         I.call_func(m, [c, text, file_name], {})  # type: ignore[arg-type]
         return c
